@@ -62,10 +62,14 @@ class CriticalPathCalculator:
 
         self.__tasks[task.id] = task
 
+        # dependencies of the task and of its ancestors, each expanded to its leaf tasks
         p_ids = []
-        for p in task.predecessors:
-            p_ids.append(p.id)
-            self.__insert_task(p)
+        for a in [task] + [t for t in task.all_parents]:
+            for p in a.predecessors:
+                for leaf in [p] + [t for t in p.all_children]:
+                    if len(leaf.children) == 0 and leaf.id not in p_ids:
+                        p_ids.append(leaf.id)
+                        self.__insert_task(leaf)
 
         estimate = task.estimate if task.estimate is not None else 0
         spent = task.spent if task.spent is not None else 0
